@@ -338,14 +338,26 @@ class FnEval:
         if isinstance(e, ast.Dict):
             return S(DictLit(e, self, nid, dict(env)))
         if isinstance(e, ast.Subscript):
+            if self.overrides and norm(e) in self.overrides:
+                return self.overrides[norm(e)]
             base = ev(e.value)
-            idx = ev(e.slice)
+            idx = ev(e.slice) if not isinstance(e.slice, ast.Slice) else TOP
             if base is TOP:
                 return TOP
             out = frozenset()
             for b in base:
                 if isinstance(b, DictLit):
                     out = union(out, b.lookup(idx, default=None, has_default=False))
+                elif isinstance(b, str) and isinstance(e.slice, ast.Slice):
+                    lo = self._eval(e.slice.lower, nid, env, oo) if e.slice.lower is not None else S(None)
+                    hi = self._eval(e.slice.upper, nid, env, oo) if e.slice.upper is not None else S(None)
+                    if lo is TOP or hi is TOP or e.slice.step is not None:
+                        return TOP
+                    for l_ in lo:
+                        for h_ in hi:
+                            if not all(x is None or (isinstance(x, int) and not isinstance(x, bool)) for x in (l_, h_)):
+                                return TOP
+                            out = out | S(b[l_:h_])
                 elif isinstance(b, tuple):
                     if idx is TOP:
                         return TOP
